@@ -127,7 +127,7 @@ def attr_strategy():
         st.tuples(ws, name, st.just('sq'), sq),
         st.tuples(ws, name, st.just('unq'), unq),
         st.tuples(ws, name, st.just('expr'), ex),
-        st.tuples(ws, st.just('class'), st.sampled_from(['dq', 'sq']), st.sampled_from(['a', 'a b', ' a  bb\tc ', '', '  ', 'x-1 y_2'])),
+        st.tuples(ws, st.just('class'), st.sampled_from(['dq', 'sq']), st.sampled_from(['a', 'a b', ' a  bb\tc ', '', '  ', 'x-1 y_2', 'a\tb', 'p q\n r\ts', '\ta'])),
         st.tuples(ws, st.just('class'), st.just('unq'), st.sampled_from(['a', 'a-b'])),
         st.tuples(ws, st.just('{...props}'), st.just('none'), st.none()),
     ).map(list)
